@@ -279,5 +279,14 @@ def replay(ctx, rec):
         for what, detail in v:
             if what != 'harness':
                 ctx.violation(rec['signature'], c, detail, rec.get('expected'), engine='SEQ')
+    elif c.get('how') == 'sigterm' and 'k' in c:
+        sc = sigterm_landing_script(c['k'])
+        obs = land.run_cases([{'script': sc}], case_timeout=180)[0]
+        ctx.count()
+        print('driver:', obs.get('driver_hang') or obs.get('driver_error') or 'alive')
+        for op, st in zip(sc, obs.get('steps', [])):
+            print(op.get('tag', op['op']), str(st)[:160])
+        if obs.get('driver_hang') or obs.get('driver_error'):
+            ctx.violation(rec['signature'], c, str(obs.get('driver_hang') or obs.get('driver_error'))[:200], rec.get('expected'), engine='LAND')
     else:
         print('re-run the check; landing case', c)
